@@ -155,6 +155,8 @@ def _page_files(nl_host, ty_host):
 
     def ty(h_):
         return [_choice.apply(lambda x: "type tt" if x == h_ else "integer :: dummy_a", ty_host), "integer :: c",
+                _choice.apply(lambda x: "contains" if x == h_ else "integer :: dummy_c", ty_host),
+                _choice.apply(lambda x: "procedure, nopass :: bp => mproc" if x == h_ else "integer :: dummy_d", ty_host),
                 _choice.apply(lambda x: "end type tt" if x == h_ else "integer :: dummy_b", ty_host)]
     return {
         "m.f90": ["module mm"] + ty("module") + ["contains", "subroutine mproc()", "integer :: a", at("module-procedure", NL), "end subroutine mproc",
@@ -167,7 +169,8 @@ def _page_files(nl_host, ty_host):
 
 
 def _pages_observe(p, lists):
-    """[(description, url)] of entities whose URL is a page of their own but which are in none of the page lists"""
+    """[(class, name, url, listed, pages)] of every entity that has a URL: `listed` says whether it is in one of the page lists, `pages`
+    are the URLs of the entities in those lists (an anchor URL must point into one of them)"""
     have = []
     for l in lists:
         v = getattr(p, l, None)
@@ -181,16 +184,26 @@ def _pages_observe(p, lists):
         seen.append(e)
         u = e.get_url() if hasattr(e, "get_url") else None
         if u is not None and not isinstance(e, type(p.files[0])):
-            missing.append((type(e).__name__, getattr(e, "name", "?"), u, any(e is h_ for h_ in have)))
+            missing.append((type(e).__name__, getattr(e, "name", "?"), u, any(e is h_ for h_ in have), pages))
         for l in ("modules", "submodules", "programs", "blockdata", "subroutines", "functions", "types", "interfaces", "absinterfaces",
-                  "namelists", "modprocedures"):
+                  "namelists", "modprocedures", "variables", "boundprocs", "args"):
             for x in getattr(e, l, []) or []:
                 if hasattr(x, "get_url"):
                     walk(x, seen)
+    pages = [h_.get_url() for h_ in have]
     seen = []
     for f in p.files:
         walk(f, seen)
     return missing
+
+
+def _anchor_ok(u, *pages):
+    """an anchor URL is `<URL of a created page>#<fragment>`"""
+    u = str(u)
+    if "#" not in u:
+        return True
+    page, frag = u.split("#", 1)
+    return bool(page) and bool(frag) and page in [str(x) for x in pages]
 
 
 def replay_pages(w):
@@ -198,14 +211,18 @@ def replay_pages(w):
     lists = page_lists()
     with contextlib.redirect_stdout(io.StringIO()), contextlib.redirect_stderr(io.StringIO()):
         p = _parserh.project_concrete(_page_files(w["nl_host"], w["ty_host"]), proc_internals=True, display=["public", "private", "protected"])
-    bad = [(c, n, u) for c, n, u, ok in _pages_observe(p, lists) if "#" not in u and not ok]
-    return bool(bad), {"files": _page_files(w["nl_host"], w["ty_host"]), "entities_with_a_page_url_but_no_page": bad}
+    obs = _pages_observe(p, lists)
+    bad = [(c, n, u) for c, n, u, ok, pages in obs if "#" not in u and not ok]
+    bad2 = [(c, n, u) for c, n, u, ok, pages in obs if not _anchor_ok(u, *pages)]
+    return bool(bad or bad2), {"files": _page_files(w["nl_host"], w["ty_host"]), "entities_with_a_page_url_but_no_page": bad,
+                               "entities_whose_anchor_url_points_into_no_created_page": bad2}
 
 
 @obligation("C09", "O2.page-url-implies-page", engine="SX(CV)", timeout=900)
 def page_url_implies_page(ctx):
     """symbolic project (a namelist and a derived type placed in every kind of host scope): every entity whose get_url() is a page of its
-    own is in one of the project lists from which Documentation creates pages"""
+    own is in one of the project lists from which Documentation creates pages, and every anchor URL (components, bound procedures, entities shown
+    on their host's page) is `<URL of such a page>#<fragment>`"""
     import io, contextlib
     import ford.output as out
     import ford.sourceform as sf
@@ -228,9 +245,10 @@ def page_url_implies_page(ctx):
             obs = _parserh.project(_page_files(nh, th), post=lambda p: _pages_observe(p, lists), proc_internals=True,
                                    display=["public", "private", "protected"])
         E.reachable("observed")
-        for cls, name, url, ok in obs:
+        for cls, name, url, ok, pages in obs:
             own_page = _choice.apply(lambda u: "#" not in str(u), url)
             E.require(_choice.apply(lambda o, k: (not o) or k, own_page, ok), f"{cls} has a page URL but no page is created for it")
+            E.require(_choice.apply(_anchor_ok, url, *pages), f"{cls} has an anchor URL that points into no created page")
 
     E = _sym.Engine(ctx, max_paths=5000, incremental=True)
     found = E.explore(h)
